@@ -668,6 +668,33 @@ def kernel_clauses(mods, solver, which, N, v):
         out.append(('K1-X %s: new point equals the formula of the statement' % kind,
                     EQ(x, next_point(v['xl'], v['xr'], zl, zr, v['M'], method.parameters.r, N))))
         out.append(('K1-X %s: new point lies strictly inside the interval' % kind, AND(LT(v['xl'], x), LT(x, v['xr']))))
+    elif which == 'renew':
+        # RenewSearchData on a two-interval list 0=xl < xn < xr: lengths, slope estimate, characteristics and links of both new intervals
+        sd = solver.searchData
+        left, old = item(v['xl'], v.get('zl')), item(v['xr'], v.get('zr'))
+        old.delta = holder(v['xr'] - v['xl'], N)
+        left.delta = 0
+        sd.InsertFirstDataItem(left, old)
+        new = item(v['xn'], v['zn'])
+        method.M = [v['M']]
+        method.Z = [v['Z']]
+        method.recalc = False
+        method.RenewSearchData(new, old)
+        out.append(('K1-RENEW: both new intervals store (x - x_left)^(1/N)',
+                    AND(EQ(new.delta, holder(v['xn'] - v['xl'], N)), EQ(old.delta, holder(v['xr'] - v['xn'], N)))))
+        out.append(('K1-RENEW: the new trial is linked between the ends of the interval it subdivides',
+                    new.GetLeft() is left and new.GetRight() is old and old.GetLeft() is new and left.GetRight() is new and sd.GetCount() == 3))
+        Mn = method.M[0]
+        out.append(('K1-RENEW: the slope estimate does not decrease', LE(v['M'], Mn)))
+        for (a, b) in ((left, new), (new, old)):
+            if a.GetIndex() == 0 and b.GetIndex() == 0:
+                out.append(('K1-RENEW: the slope estimate dominates the slopes of the new intervals', LE(abs(b.GetZ() - a.GetZ()) / b.delta, Mn)))
+        r = method.parameters.r
+        for (a, b) in ((left, new), (new, old)):
+            za = a.GetZ() if a.GetIndex() == 0 else None
+            zb = b.GetZ() if b.GetIndex() == 0 else None
+            out.append(('K1-RENEW: the characteristics of the new intervals are the formula of the statement (current M, z*)',
+                        EQ(b.globalR, characteristic_D(b.delta, za, zb, Mn, v['Z'], r))))
     elif which == 'delta':
         d = mods.method.Method.CalculateDelta(v['xl'], v['xr'], N)
         out.append(('K1-D: CalculateDelta is (x_r - x_l)^(1/N)', EQ(d, holder(v['xr'] - v['xl'], N))))
@@ -789,7 +816,9 @@ def native_main(a):
         if a['level'] == 'kernel':
             r = g('r', 2.5)
             s = make_solver(mods, P(N, lower, upper, lambda ys, i: 0.0), r, 0.01, 1000)
-            v = {k: g(k, 0.0) for k in ('xl', 'xr', 'zl', 'zr', 'M', 'Z', 'D')}
+            v = {k: g(k, 0.0) for k in ('xl', 'xr', 'zl', 'zr', 'M', 'Z', 'D', 'xn', 'zn')}
+            if a['which'] == 'renew' and a.get('ends_unevaluated'):
+                v['zl'] = v['zr'] = None
             if a.get('derive_D'):
                 v['D'] = holder(v['xr'] - v['xl'], N)
             cl = kernel_clauses(mods, s, a['which'], N, v)
@@ -875,6 +904,16 @@ def native_main(a):
             import importlib
             modname, fn = a['clauses']
             cl = getattr(importlib.import_module(modname), fn)(mods, ctxs, want)
+        elif a['level'] == 'longrun':
+            # end-to-end witness for a structural finding (e.g. a bounded characteristics queue): a long native run checked trial by trial
+            r = a.get('r', 3.5)
+            iters = int(a['iters'])
+            f = prefix_function(a.get('seed', 0), N)
+            s = make_solver(mods, P(N, lower, upper, lambda ys, i: f([float(y) for y in ys])), r, 1e-12, iters + 5, density=a.get('density'))
+            L = listener_class(mods, ('iter',))()
+            s.AddListener(L)
+            s.DoGlobalIteration(iters)
+            cl = [('C02 ' + l, c) for l, c in agp_history_clauses(trials_of(L), r, N)]
         elif a['level'] == 'guard':
             s = make_solver(mods, P(1, lower, upper, lambda ys, i: 0.0), 2.5, 0.01, 1000)
             cl = guard_clauses(mods, s, g('eps', 0.01), int(g('iters_limit', 1)), int(g('iterations', 1)),
@@ -987,6 +1026,8 @@ EXC_TYPES = {
     'GeneratorExit()': lambda: GeneratorExit(),
     'UserBaseException()': lambda: _UserBase(),
     'AssertionError()': lambda: AssertionError(),
+    'ZeroDivisionError(msg)': lambda: ZeroDivisionError('float division by zero'),
+    'OverflowError(msg)': lambda: OverflowError('math range error'),
 }
 
 
